@@ -106,6 +106,13 @@ Theorem C10_honeycomb_index_structure :
 Proof. exact honeycomb_index_structure_claim. Qed.
 Print Assumptions C10_honeycomb_index_structure.
 
+(* n_vertical = int(round(n / sqrt 3)) is modelled by the integer nearest to n/sqrt3 *)
+Theorem C10_honeycomb_nv_nearest :
+  forall n : Z, 1 <= n ->
+  let v := honeycomb_nv n in 3 * (2 * v - 1) * (2 * v - 1) <= 4 * n * n < 3 * (2 * v + 1) * (2 * v + 1).
+Proof. exact honeycomb_nv_nearest. Qed.
+Print Assumptions C10_honeycomb_nv_nearest.
+
 (* honeycomb positions (exact up to the uniform irrational y-shift 0.01/(sqrt3*nv), see Model/Examples.v) *)
 Theorem C10_honeycomb_positions :
   forall n : Z, 1 <= n -> let nv := honeycomb_nv n in let L := honeycomb n in
